@@ -779,10 +779,77 @@ func c08Gen(t *rapid.T) c08Case {
 	return c
 }
 
+// ---- bounded-exhaustive lane: every sequence of up to 3 (thorough: a seed-chosen quarter of those of 4) frames over
+// a fixed alphabet of (frame, stream slot) symbols, with immediate and with gated handlers. No steering (Fix=false):
+// the sequences are exactly what the alphabet spells.
+var c08Alphabet = func() []c08Frame {
+	var a []c08Frame
+	for _, es := range []bool{false, true} {
+		for _, eh := range []bool{false, true} {
+			a = append(a, c08Frame{K: "H", Slot: 5, ES: es, EH: eh}) // new stream
+		}
+	}
+	a = append(a,
+		c08Frame{K: "H", Slot: 0, ES: true, EH: true},  // trailers / HEADERS on a stream that is not idle
+		c08Frame{K: "H", Slot: 0, ES: false, EH: true}, // second HEADERS without END_STREAM
+		c08Frame{K: "H", Slot: 0, ES: true, EH: false}, // trailers to be continued
+		c08Frame{K: "H", Slot: 6, ES: true, EH: true},  // new id skipping one
+		c08Frame{K: "H", Slot: 7, ES: true, EH: true},  // lower never-used id (implicitly closed once one was skipped)
+		c08Frame{K: "H", Slot: 8, ES: true, EH: true},  // even id
+		c08Frame{K: "H", Slot: 9, ES: true, EH: true},  // stream 0
+		c08Frame{K: "H", Slot: 5, ES: true, EH: true, Prio: 2},
+		c08Frame{K: "H", Slot: 5, ES: false, EH: true, Prio: 1, Padded: true},
+		c08Frame{K: "C", Slot: 0, EH: true}, c08Frame{K: "C", Slot: 0, EH: false}, c08Frame{K: "C", Slot: 5, EH: true},
+		c08Frame{K: "D", Slot: 0, ES: true}, c08Frame{K: "D", Slot: 0, ES: false}, c08Frame{K: "D", Slot: 0, ES: true, Empty: true, Padded: true},
+		c08Frame{K: "D", Slot: 1, ES: true}, c08Frame{K: "D", Slot: 5}, c08Frame{K: "D", Slot: 7}, c08Frame{K: "D", Slot: 9},
+		c08Frame{K: "R", Slot: 0, Code: 8}, c08Frame{K: "R", Slot: 1, Code: 0}, c08Frame{K: "R", Slot: 5, Code: 8}, c08Frame{K: "R", Slot: 7, Code: 8}, c08Frame{K: "R", Slot: 9, Code: 8},
+		c08Frame{K: "W", Slot: 0, Incr: 0}, c08Frame{K: "W", Slot: 0, Incr: 1}, c08Frame{K: "W", Slot: 0, Incr: 2}, c08Frame{K: "W", Slot: 0, Incr: 3},
+		c08Frame{K: "W", Slot: 9, Incr: 0}, c08Frame{K: "W", Slot: 9, Incr: 2}, c08Frame{K: "W", Slot: 9, Incr: 3}, c08Frame{K: "W", Slot: 5, Incr: 1}, c08Frame{K: "W", Slot: 7, Incr: 1},
+		c08Frame{K: "P", Slot: 0, Prio: 1}, c08Frame{K: "P", Slot: 0, Prio: 2}, c08Frame{K: "P", Slot: 5, Prio: 1}, c08Frame{K: "P", Slot: 7, Prio: 1}, c08Frame{K: "P", Slot: 9, Prio: 1},
+		c08Frame{K: "PING", Slot: 9}, c08Frame{K: "PING", Slot: 8}, c08Frame{K: "SET", Slot: 9}, c08Frame{K: "SET", Slot: 8}, c08Frame{K: "U", Slot: 0}, c08Frame{K: "U", Slot: 9},
+		c08Frame{K: "REL", Slot: 0},
+	)
+	return a
+}()
+
+// c08EnumAt maps an index to a case: lengths 1, 2, 3, 4 in that order, each length twice (ungated, gated; length 4 ungated only).
+func c08EnumSizes() (n1, n2, n3, n4 int) {
+	k := len(c08Alphabet)
+	return 2 * k, 2 * k * k, 2 * k * k * k, k * k * k * k
+}
+
+func c08EnumAt(i int) c08Case {
+	k := len(c08Alphabet)
+	n1, n2, n3, _ := c08EnumSizes()
+	length, gatedBoth := 1, true
+	switch {
+	case i < n1:
+	case i < n1+n2:
+		i, length = i-n1, 2
+	case i < n1+n2+n3:
+		i, length = i-n1-n2, 3
+	default:
+		i, length, gatedBoth = i-n1-n2-n3, 4, false
+	}
+	c := c08Case{}
+	if gatedBoth {
+		c.Gated = i%2 == 1
+		i /= 2
+	}
+	for j := 0; j < length; j++ {
+		c.Frames = append(c.Frames, c08Alphabet[i%k])
+		i /= k
+	}
+	return c
+}
+
 func TestC08(t *testing.T) {
 	s := newSuite(t, "C08",
 		"sequences of 1..14 frames over {HEADERS(+/-END_STREAM,+/-END_HEADERS, priority none/other/self, padded), CONTINUATION, DATA(+/-END_STREAM, empty, padded), RST_STREAM, WINDOW_UPDATE(0 / small / up to exactly 2^31-1 / one past), PRIORITY(other/self), PING, SETTINGS, unknown types, handler release}, each with optional undefined flag bits, addressed to stream slots {existing streams by age, next new id, new id skipping one, a lower never-used id, an even id, stream 0}; handlers immediate or gated; lock-step with quiescence (hook counters) after every frame. Oracle = reaction model of RFC 7540 5.1/6 (DESIGN appendix A): the observed reaction (nothing / ACK / RST_STREAM code / GOAWAY code / close) must be in the set the RFC allows for (stream state, frame); legal sequences raise no error; handler invocations equal the requests completed by legal sequences, with the body carried by legal DATA frames; the model follows the observed reaction. Non-trivial = >=3 distinct (frame kind, stream state) pairs including a non-open state; distinct by case hash.",
 		"frame-size malformations are C16/C10 material and not generated here", "MAX_CONCURRENT_STREAMS is never reached (refusal is C09/C13/C18 material)")
 	defer s.finish()
 	runLane(s, Lane[c08Case]{Name: "states", Journal: true, Quick: 40000, Thor: 3000000, Gen: c08Gen, Run: c08Run})
+	n1, n2, n3, n4 := c08EnumSizes()
+	runEnum(s, EnumLane[c08Case]{Name: "enum3", Journal: true, N: n1 + n2 + n3, Head: n1 + n2, At: c08EnumAt, Run: c08Run, QuickStride: 23, ThorStride: 1})
+	runEnum(s, EnumLane[c08Case]{Name: "enum4", Journal: true, N: n4, At: func(i int) c08Case { return c08EnumAt(n1 + n2 + n3 + i) }, Run: c08Run, QuickStride: -1, ThorStride: 4})
 }
